@@ -917,8 +917,18 @@ def lmrow_append(ex, obj, args, kwargs, node, env, fr):
     lm = obj.lm
     k = to_z3(obj.key, "int")
     n = z3.Select(lm.len, k)
-    lm.elems = z3.Store(lm.elems, k, n, to_z3(args[0], lm.kind))
-    lm.len = z3.Store(lm.len, k, n + 1)
+    # new state as fresh constants with frame axioms triggered on their own cells (plain select terms are usable as patterns)
+    old_e, old_l = lm.elems, lm.len
+    new_e = z3.Const(fresh_name(lm.name + ".e"), old_e.sort())
+    new_l = z3.Const(fresh_name(lm.name + ".len"), old_l.sort())
+    kk, tt = z3.Int(fresh_name("k")), z3.Int(fresh_name("t"))
+    val = to_z3(args[0], lm.kind)
+    ex.assume(z3.ForAll([kk, tt], z3.Select(new_e, kk, tt) == z3.If(z3.And(kk == k, tt == n), val, z3.Select(old_e, kk, tt)),
+                        patterns=[z3.Select(new_e, kk, tt), z3.Select(old_e, kk, tt)]))
+    ex.assume(z3.ForAll([kk], z3.Select(new_l, kk) == z3.If(kk == k, n + 1, z3.Select(old_l, kk)),
+                        patterns=[z3.Select(new_l, kk), z3.Select(old_l, kk)]))
+    ex.assume(z3.Select(new_e, k, n) == val)
+    lm.elems, lm.len = new_e, new_l
 
 
 @method("str", "call:format")
@@ -967,13 +977,22 @@ def sp_exists(ex, args, kwargs, node):
     bs = [(bounds[i], bounds[i + 1]) for i in range(0, len(bounds), 2)]
     from .symexec import _SpecFrame
     names = [a.arg for a in lam.node.args.args]
+    pat = kwargs.get("pattern")
 
     def body(*vs):
         e2 = dict(lam.env)
         for a, v in zip(names, vs):
             e2[a] = v
         return ex.eval(lam.node.body, e2, _SpecFrame(ex))
-    return exists_ranges(bs, body, names=names)
+    pats = None
+    if pat is not None:
+        def pats(*vs):
+            e2 = dict(pat.env)
+            for a, v in zip(names, vs):
+                e2[a] = v
+            r = ex.eval(pat.node.body, e2, _SpecFrame(ex))
+            return list(r) if isinstance(r, (list, tuple)) else [r]
+    return exists_ranges(bs, body, names=names, patterns_fn=pats)
 
 
 @spec("implies")
